@@ -256,6 +256,10 @@ def c15_queries(tier):
         for i, r in enumerate([probe_diamond(), probe_next()]):
             qs.append(_q('C15', r, 'update_unregistered_%s_%s' % (nm, tag(r, i)), {'UNREG_POS': pos, 'UNREG_ID': 23}, covers=(950,),
                          desc='unregistered id in a ' + nm + ': unknown_class_error with that id before anything is installed'))
+    for i, r in enumerate([probe_diamond(), probe_next()]):
+        sp = Registry(r.name, r.direct, r.methods, r.defs, 'split')
+        qs.append(_q('C15', sp, 'update_unregistered_base_list_later_record_%s' % tag(r, i), {'UNREG_POS': 1, 'UNREG_ID': 23}, covers=(950,),
+                     desc='a class registered by several records: the unregistered base is listed by the last one only'))
     return qs
 
 
